@@ -32,8 +32,10 @@ CASES = [
     dict(name="delete-fields-iterates-while-deleting", file="field/base.py", expect="R07.7", old="        del self[self.field_names if select is None else select]", new="        for name in self.field_names if select is None else select:\n            del self[name]"),
     dict(name="twin-delete-fields-iterates-copy", kind="twin", file="field/base.py", old="        del self[self.field_names if select is None else select]", new="        for name in list(self.field_names if select is None else select):\n            del self[name]"),
     dict(name="revert-provenance-of-cached-raw-field", file="field/cond_srf.py", expect="R07.8", old="            and self.krige[krige_name[1]] is self._krige_var_ref\n", new=""),
-    dict(name="provenance-never-updated", file="field/cond_srf.py", expect="R07.8", old="            self._krige_var_ref = krige_var\n", new="            self._krige_var_ref = None\n"),
+    dict(name="provenance-never-updated", file="field/cond_srf.py", expect="R07.8", old="            self._krige_var_ref = krige_var if save[2] else None\n", new="            self._krige_var_ref = None\n"),
     dict(name="provenance-updated-on-reuse-too", file="field/cond_srf.py", expect="R07.8",
-         old="            self.post_field(rawkrige, name[2], False, save[2])\n            self._krige_var_ref = krige_var\n", new="            self.post_field(rawkrige, name[2], False, save[2])\n        self._krige_var_ref = krige_var\n"),
+         old="            self.post_field(rawkrige, name[2], False, save[2])\n            self._krige_var_ref = krige_var if save[2] else None\n", new="            self.post_field(rawkrige, name[2], False, save[2])\n        self._krige_var_ref = krige_var if save[2] else None\n"),
     dict(name="revert-ext-drift-blocks-reuse", file="field/cond_srf.py", expect="R07.9", old='            and kwargs.get("ext_drift") is None\n', new=""),
+    dict(name="revert-provenance-only-when-stored", file="field/cond_srf.py", expect="R07.8", old="            self._krige_var_ref = krige_var if save[2] else None\n", new="            self._krige_var_ref = krige_var\n"),
+    dict(name="revert-own-copy-of-positions", file="field/base.py", expect="R07.10", old="            self._pos = np.array(pos, dtype=np.double).reshape(self.dim, -1)\n", new="            self._pos = np.asarray(pos, dtype=np.double).reshape(self.dim, -1)\n"),
 ]
